@@ -48,7 +48,7 @@ Your task:
 1. Read the anchored code. Make ONE small, realistic change to the library's non-test source (the kind of mistake a maintainer could plausibly commit: a wrong condition, a dropped step, a reordered pair of operations, an off-by-one, a missing lock, an error path that forgets a clean-up, a refactoring that is not quite equivalent) so that the property above no longer holds.
 2. The change MUST still compile and the EXISTING test suite must still pass: run `go test -vet=off -count=1 ./...` for the whole module (note: ./gotooltest TestSimple/cover and ./cmd/testscript TestScripts/env_var_with_go fail even on the unchanged tree because there is no network - ignore those two, and only those two).
 3. The bug must need something SPECIFIC to manifest - a particular interleaving, a crash or fault at a particular point, a multi-step sequence of operations, an unusual input or environment, or two cooperating sites that each look fine alone. It must NOT be something that ordinary use (or the existing tests) would expose at once. Prefer subtle over blatant.
-4. Write a DEMONSTRATION that fails with your change and passes without it: a new Go test file (name it zz_seed_demo_test.go in the relevant package directory, or a small test package under {wt}/zz_seed_demo/) - it may use loops/goroutines/fault injection as needed but must be deterministic enough to fail reliably (>= 9 of 10 runs) with the bug and pass reliably without it. Verify BOTH directions yourself (use `git stash` / `git stash pop` or `git diff > patch; git checkout` to flip the library change while keeping the demo).
+4. Write a DEMONSTRATION that fails with your change and passes without it: a new Go test file (name it zz_seed_demo_test.go in the relevant package directory, or a small test package under {wt}/zz_seed_demo/) - it may use loops/goroutines/fault injection as needed but must be deterministic enough to fail reliably (>= 9 of 10 runs) with the bug and pass reliably without it. Verify BOTH directions yourself (flip the library change with `git diff -- <files> > /tmp/<something>.diff; git apply -R ...; git apply ...` while keeping the demo; do NOT use `git stash`: the stash is shared with other worktrees of the same repository and other engineers are working in those).
 5. Save the library change (ONLY the non-test source change, not the demo) as {wt}/patch.diff (unified diff produced by `git diff -- <changed source files>`), leave the demo files in place, and leave the working tree WITH the change applied. Do not commit.
 
 Reply with: the path of patch.diff, the demo file path and the exact command to run it, one paragraph on what the bug is and what it needs in order to manifest, and the outputs you observed (demo failing with the change, passing without; existing tests passing with the change).
